@@ -3,7 +3,7 @@
 EXTENDS R_AddrMap, TLC
 CONSTANTS MaxRowBits, BankBits, ColBits, Aligns
 Geoms == { g \in [bankbits : BankBits, rowbits : 1..MaxRowBits, colbits : ColBits, align : Aligns, rankbits : 0..1, bbaexp : 0..12] :
-             /\ g.bbaexp \in {0, g.colbits - g.align, g.colbits - g.align + 1, g.colbits - g.align + 2}
+             /\ g.bbaexp \in {0} \cup ((g.colbits - g.align)..(g.colbits - g.align + g.rowbits))      \* none, one row .. the whole bank
              /\ g.colbits - g.align + (IF g.bbaexp > g.colbits - g.align THEN g.bbaexp - (g.colbits - g.align) ELSE 0) <= g.colbits - g.align + g.rowbits }
 G(x) == [bankbits |-> x.bankbits, rowbits |-> x.rowbits, colbits |-> x.colbits, align |-> x.align,
          rankbits |-> x.rankbits, bbawords |-> IF x.bbaexp = 0 THEN 0 ELSE Pow2(x.bbaexp)]
